@@ -49,6 +49,7 @@ type Fid struct {
 	XR      []byte
 	XW      *XW
 	Opaque  bool // behaviour deliberately not modelled (left open by the properties)
+	XRUnknown bool // xattr-read fid whose value the model does not know
 	OpenIno *memtree.Inode
 	Serial  int // unique per binding (lets checks tell rebinding from persistence)
 }
@@ -729,7 +730,7 @@ func (m *Model) Step(conn int, req *refcodec.Msg) *Expect {
 		if f.Opaque {
 			open("operation on an xattr-read fid")
 			e.onAnyOK = func(*refcodec.Msg) {
-				m.bind(conn, req.U("newfid"), &Fid{Opaque: true, IsXR: true, Root: true, Loc: f.Loc})
+				m.bind(conn, req.U("newfid"), &Fid{Opaque: true, IsXR: true, XRUnknown: true, Root: true, Loc: f.Loc})
 			}
 			break
 		}
@@ -965,6 +966,8 @@ func (m *Model) stepRead(e *Expect, conn int, req *refcodec.Msg, open func(strin
 		return
 	}
 	switch {
+	case f.IsXR && f.XRUnknown:
+		open("operation on an xattr-read fid")
 	case f.IsXR:
 		e.NoBackend = true
 		if count == 0 {
@@ -973,11 +976,6 @@ func (m *Model) stepRead(e *Expect, conn int, req *refcodec.Msg, open func(strin
 			}
 		} else if off+count > uint64(len(f.XR)) || off+count < off {
 			e.reject(EINVAL)
-		}
-		if f.XR == nil && f.Opaque && !e.Rejected() {
-			// value unknown (bound through an open-ended request)
-			open("operation on an xattr-read fid")
-			return
 		}
 		e.run = func() (*refcodec.Msg, int) {
 			if count == 0 {
